@@ -48,7 +48,7 @@ package http2
 //@   ensures [C03:headers-latest-block] old(accepted(sc, f)) && old(hasMeta(sc.baseCtx)) && isptr(MetaHeadersFrame, f) ==> len(old(ctxMeta(sc.baseCtx)).HTTP2Frames.Headers) == len(old(unboxptr(MetaHeadersFrame, f).Fields)) && (forall i int :: 0 <= i && i < len(old(unboxptr(MetaHeadersFrame, f).Fields)) ==> old(ctxMeta(sc.baseCtx)).HTTP2Frames.Headers[i].Name == old(unboxptr(MetaHeadersFrame, f).Fields)[i].Name)
 //@   ensures [C03:headers-priority-iff-flag] old(accepted(sc, f)) && old(hasMeta(sc.baseCtx)) && isptr(MetaHeadersFrame, f) ==> len(old(ctxMeta(sc.baseCtx)).HTTP2Frames.Priorities) == len(old(ctxMeta(sc.baseCtx).HTTP2Frames.Priorities)) + ite(flag(old(hdrOf(f)).Flags, 32), 1, 0) && (flag(old(hdrOf(f)).Flags, 32) ==> old(ctxMeta(sc.baseCtx)).HTTP2Frames.Priorities[len(old(ctxMeta(sc.baseCtx).HTTP2Frames.Priorities))].StreamId == old(hdrOf(f)).StreamID && old(ctxMeta(sc.baseCtx)).HTTP2Frames.Priorities[len(old(ctxMeta(sc.baseCtx).HTTP2Frames.Priorities))].Weight == old(unboxptr(MetaHeadersFrame, f).HeadersFrame.Priority.Weight))
 //@   ensures [C03:other-frames-capture-nothing] old(hasMeta(sc.baseCtx)) && (!old(accepted(sc, f)) || (!isptr(SettingsFrame, f) && !isptr(WindowUpdateFrame, f) && !isptr(PriorityFrame, f) && !isptr(MetaHeadersFrame, f))) ==> old(ctxMeta(sc.baseCtx)).HTTP2Frames.Settings == old(ctxMeta(sc.baseCtx).HTTP2Frames.Settings) && old(ctxMeta(sc.baseCtx)).HTTP2Frames.WindowUpdateIncrement == old(ctxMeta(sc.baseCtx).HTTP2Frames.WindowUpdateIncrement) && old(ctxMeta(sc.baseCtx)).HTTP2Frames.Priorities == old(ctxMeta(sc.baseCtx).HTTP2Frames.Priorities) && old(ctxMeta(sc.baseCtx)).HTTP2Frames.Headers == old(ctxMeta(sc.baseCtx).HTTP2Frames.Headers)
-//@   loop 1 invariant 0 <= i && i <= len(f#2.p) / 6 && len(settings) == i
-//@   loop 1 invariant forall k int :: 0 <= k && k < i ==> settings[k].Id == settingID(f#2.p, k) && settings[k].Val == settingVal(f#2.p, k)
-//@   loop 2 invariant -1 <= rangeindex && rangeindex < len(f#3.Fields) || (rangeindex == -1 && len(f#3.Fields) == 0)
-//@   loop 2 invariant len(headers) == rangeindex + 1 && (forall k int :: 0 <= k && k <= rangeindex ==> headers[k].Name == f#3.Fields[k].Name)
+//@   loop 1 invariant 0 <= i && i <= len(f#SettingsFrame.p) / 6 && len(settings) == i
+//@   loop 1 invariant forall k int :: 0 <= k && k < i ==> settings[k].Id == settingID(f#SettingsFrame.p, k) && settings[k].Val == settingVal(f#SettingsFrame.p, k)
+//@   loop 2 invariant -1 <= rangeindex && rangeindex < len(f#MetaHeadersFrame.Fields) || (rangeindex == -1 && len(f#MetaHeadersFrame.Fields) == 0)
+//@   loop 2 invariant len(headers) == rangeindex + 1 && (forall k int :: 0 <= k && k <= rangeindex ==> headers[k].Name == f#MetaHeadersFrame.Fields[k].Name)
